@@ -243,11 +243,58 @@ example : ∃ s', exec witnessState (.mint "A" "mka" 7) = .ok s' ∧ s'.bank.sup
   refine ⟨_, rfl, ?_⟩
   decide
 
+/-- A configured maximum that is already reached freezes minting: with `max_supply` at or below
+what exists of the denom (in particular `max_supply = 0`, the smallest value `Params.Validate`
+lets governance store, and any negative one) no positive `MsgMint` into an active marker is
+accepted. -/
+theorem mint_into_active_rejected_once_max_reached {s : State} {c : Addr} {d : Denom} {n : Int}
+    {m : Marker} (hm : s.find d = some m) (ha : m.status = .active)
+    (hmax : s.maxSupply ≤ s.bank.supply d) (hn : 0 < n) (s' : State) :
+    exec s (.mint c d n) ≠ .ok s' := by
+  intro h
+  obtain ⟨hsup, hle, _⟩ := mint_into_active_le_max h hm ha
+  omega
+
+/-- the same for the governance supply-increase proposal -/
+theorem gov_increase_of_active_rejected_once_max_reached {s : State} {au : Addr} {d : Denom}
+    {n : Int} {t : Addr} {m : Marker} (hm : s.find d = some m) (ha : m.status = .active)
+    (hmax : s.maxSupply ≤ s.bank.supply d) (hn : 0 < n) (s' : State) :
+    exec s (.govinc au d n t) ≠ .ok s' := by
+  intro h
+  obtain ⟨hsup, hle⟩ := gov_increase_of_active_le_max h hm ha
+  omega
+
+/-- A governance `UpdateParams` is in force for the very next transaction: whatever the old
+maximum was and whatever the deprecated `max_total_supply` carries (`mts`, any value), a mint or
+supply-increase proposal into an active marker after it is bounded by the NEW `max_supply`; the
+update itself touches neither the marker records nor the bank. -/
+theorem params_update_bounds_the_next_mint {s s1 s2 : State} {au : Addr} {mx mts : Int} {eg : Bool}
+    {d : Denom} {m : Marker} (hp : exec s (.params au mx mts eg) = .ok s1)
+    (hm : s1.find d = some m) (ha : m.status = .active) :
+    s1.markers = s.markers ∧ s1.bank = s.bank ∧
+    (∀ c n, exec s1 (.mint c d n) = .ok s2 → s2.bank.supply d ≤ mx) ∧
+    (∀ au' n t, exec s1 (.govinc au' d n t) = .ok s2 → s2.bank.supply d ≤ mx) := by
+  simp only [exec, updateParams, bind_ok, check_ok, pure_ok] at hp
+  obtain ⟨_, _, rfl⟩ := hp
+  refine ⟨rfl, rfl, fun c n h => ?_, fun au' n t h => ?_⟩
+  · exact (mint_into_active_le_max h hm ha).2.1
+  · exact (gov_increase_of_active_le_max h hm ha).2
+
+/-- non-trivial instance: the witness marker is active with 100 coins; governance sets
+`max_supply = 0` (legacy field 5000): the next mint of 1 is rejected, as it is with the maximum
+set to exactly the existing supply, while a maximum of 101 admits exactly one more coin. -/
+example : exec (step witnessState (.params GOV 0 5000 true)) (.mint "A" "mka" 1) = .error .max ∧
+    exec (step witnessState (.params GOV 100 0 true)) (.mint "A" "mka" 1) = .error .max ∧
+    exec (step witnessState (.params GOV (-1) 0 true)) (.mint "A" "mka" 1) = .error .negcoin ∧
+    (∃ s', exec (step witnessState (.params GOV 101 0 true)) (.mint "A" "mka" 1) = .ok s') ∧
+    exec (step witnessState (.params GOV 101 0 true)) (.mint "A" "mka" 2) = .error .max := by
+  exact ⟨rfl, rfl, rfl, ⟨_, rfl⟩, rfl⟩
+
 /-- The maximum is enforced only on that path: activating a marker whose configured supply was
 raised above the maximum while still proposed mints past it (not a clause of the property —
 recorded as an observation). -/
 theorem activation_is_not_bounded_by_max :
-    (run {} [.params GOV 50 true,
+    (run {} [.params GOV 50 0 true,
              .add { sender := "A", denom := "mka", amt := 10, status := .proposed, restricted := false,
                     fixed := true, gov := false, forced := false, manager := "A", access := [("A", [.mint])] },
              .mint "A" "mka" 1000, .finalize "A" "mka", .activate "A" "mka"]).bank.supply "mka" = 1010 := by
